@@ -3,6 +3,7 @@ import EpModel.Lemmas.DecLax
 import EpModel.Props.C15
 import EpModel.Lemmas.SpecShift
 import EpModel.Lemmas.SpecShiftEntry
+import EpModel.Props.C06Headers
 /-
   C06 — equivalent entry points give equivalent answers.
 
